@@ -15,8 +15,8 @@ def gram_cfg(n):
     return "CONSTANT N = %d\nINIT GInit\nNEXT GNext\nINVARIANT Emit\nCHECK_DEADLOCK FALSE\n" % n
 
 
-def trees_cfg(size, parens, kinds, ops):
-    return vf.cfg_consts(MaxSize=size, MaxParens=parens, Kinds=kinds, BinOps=ops) + "INIT Init\nNEXT Next\nINVARIANT Emit\nCHECK_DEADLOCK FALSE\n"
+def trees_cfg(size, parens, kinds, ops, drops=0):
+    return vf.cfg_consts(MaxSize=size, MaxParens=parens, Kinds=kinds, BinOps=ops, MaxDrops=drops) + "INIT Init\nNEXT Next\nINVARIANT Emit\nCHECK_DEADLOCK FALSE\n"
 
 
 def replay(c, st, name, n, reject):
@@ -64,6 +64,34 @@ def run(c):
         s2 = vf.tlc_generate("MC_Trees", cfg, name, timeout=6000, workers=14)
         c.add_tlc(s2, "all syntax trees (%s) unparsed; generation" % name)
         report(c, replay(c, s2, name, 0, False))
+    # ---- beyond the token bound: syntax trees with ONE pair of REQUIRED parentheses left out.  Whether such a string is still a
+    # sentence is decided by TLC (MC_Member: the derivation machine pruned by the target); the syntax stage must agree.
+    sd = vf.tlc_generate("MC_Trees", trees_cfg(5, 0, {"var", "type", "lam", "pi", "ndpi", "let", "if", "app", "neg"} if c.quick else ALLKINDS, {"sum", "lt"}, drops=1),
+                         "trees-drop-%s" % ("binders-5" if c.quick else "all-5"), timeout=6000, workers=14)
+    c.add_tlc(sd, "syntax trees with one required pair of parentheses dropped; generation")
+    d = os.path.join(vf.WORK, "parse")
+    targets = os.path.join(d, "targets.ndjson")
+    vf.gv(["accepts", sd["out"], targets, 5 if c.quick else 1], timeout=3000)
+    tg = [json.loads(l) for l in open(targets) if l.strip()]
+    if tg:
+        mo = os.path.join(d, "member.out")
+        sm = vf.tlc("MC_Member", "INIT Init\nNEXT Next\nINVARIANT Emit\nCHECK_DEADLOCK FALSE\n", mo, workers=12, timeout=3000, env={"TARGETS": targets})
+        c.add_tlc(sm, "membership of %d under-parenthesised strings (derivation machine pruned by the target)" % len(tg))
+        members = set()
+        for line in open(mo, errors="replace"):
+            rec = vf.parse_tlc_line(line, "MEMBER") if line.startswith('<<"MEMBER"') else None
+            if rec:
+                members.add(rec["id"])
+        c.cov["replayed_cases"] += len(tg)
+        c.cov["parse"]["dropped-parentheses"] = {"strings": len(tg), "sentences": len(members)}
+        for t in tg:
+            text = " ".join(t["y"])
+            if t["panicked"]:
+                c.violate("parser panicked on: " + text, {"kind": "parse-panic", "text": text})
+            elif t["accepted"] and t["id"] not in members:
+                c.violate("token string that is not a sentence of grammar.y is accepted: " + text, {"kind": "member", "what": "over-acceptance", "text": text})
+            elif not t["accepted"] and t["id"] in members:
+                c.violate("sentence of grammar.y rejected: " + text, {"kind": "member", "what": "over-rejection", "text": text})
     # probe: corrupt a prescribed tree
     rec = vf.first_tag(st["out"], "SENT", 1, skip=1000)[0]
     rec["ast"] = {"k": "app", "a": rec["ast"], "b": {"k": "type"}}
